@@ -313,3 +313,8 @@ func nullFDsUnder(dir string) int {
 	}
 	return n
 }
+
+func sparsePunch(f *os.File, off, n int64) error {
+	const keepSize, punchHole = 1, 2
+	return syscall.Fallocate(int(f.Fd()), keepSize|punchHole, off, n)
+}
